@@ -58,7 +58,7 @@ func c08Events() []c08Event {
 	var ev []c08Event
 	ev = append(ev, mk("auth-good", resp.B("AUTH"), resp.B(P)))
 	ev = append(ev, mk("auth-good", resp.B("auth"), resp.B(P)))
-	dict := []string{"", "Sec\r\nret1", P + "x", P + "\x00", swapCase(P), " " + P, "wrong"}
+	dict := []string{"", "Sec\r\nret1", P + "x", P + "\x00", swapCase(P), " " + P, "wrong", P + "\r\n", P + "\r\nx", P + "\n", P + "\r", "\r\n" + P}
 	for i := 1; i < len(P); i++ {
 		dict = append(dict, P[:i])
 	}
